@@ -1,7 +1,7 @@
 \* force deletion after timeout, nodes go down, pending timeout, lagging caches, crash
 CONSTANTS N = 2 MaxAtt = 2 Delay = 1 Strategy = "AllSuccessful" PT = 2 FD = 2 TTL = 2 Forbid = FALSE Foreign = FALSE MaxTime = 8 MaxEvq = 3 MaxFaults = 2 MaxCrash = 1 Fresh = FALSE KillDelays = {1} KillEdits = {} UserDeletes = FALSE ExtDeletes = FALSE NodeDowns = TRUE
  Rejects = TRUE
- Holds = FALSE Invalids = FALSE D = 48
+ Holds = FALSE Invalids = FALSE WatchBreaks = FALSE D = 48
 SPECIFICATION SSpec
 INVARIANT EmitDone
 CHECK_DEADLOCK FALSE
